@@ -155,6 +155,21 @@ def apply_rules(text, rules):
     """rules: list of dicts {name, re, sub, min (default 0), flags}. Applied in order."""
     fired = []
     for r in rules:
+        if "drop_block" in r:
+            # delete `<header matching the regex> { balanced block }` (statements that only set up or print)
+            k = 0
+            while True:
+                m = re.search(r["drop_block"], text, re.S)
+                if not m:
+                    break
+                i = text.index("{", m.end() - 1) if text[m.end() - 1] != "{" else m.end() - 1
+                j = balanced(text, i)
+                text = text[:m.start()] + r.get("sub", "") + text[j:]
+                k += 1
+            fired.append((r["name"], k))
+            if k < r.get("min", 0):
+                raise ExtractionDrift("must-fire rule %r fired %d < %d times" % (r["name"], k, r["min"]))
+            continue
         flags = r.get("flags", re.S)
         text, k = re.subn(r["re"], r["sub"], text, flags=flags)
         fired.append((r["name"], k))
